@@ -307,6 +307,119 @@ func c15Regions(loc string, seq gts.Sequence) (rr gts.Regions, ok bool) {
 	return rr, true
 }
 
+// c15LeafKind: what Segment.Locate -> gts.Slice makes of the leaf (h, t) on a record of L residues
+// (lo = min, hi = max; a negative end has L added once, then end < start means rotate and cut):
+//
+//	"inside"   0 <= lo, hi <= L                 the window [lo, hi)
+//	"shifted"  -L <= lo, hi < 0                 the window [lo+L, hi+L)            (Gts.C15.locate_neg_segment_shift)
+//	"wrap"     -L <= lo < 0 <= hi < lo+L        the window lo+L..L, 0..hi of the circle (Gts.Cli.wrapSeg)
+//	"rejected" everything else: hi >= lo+L is read as the forward window [lo+L, hi) — a segment as long as
+//	           the circle comes out EMPTY (Gts.C15.locate_long_wrap_differs) —, an end above L slices beyond
+//	           the length (a panic, or bytes of the spare capacity), an end below -L panics
+func c15LeafKind(s gts.Segment, L int) string {
+	lo, hi := s[0], s[1]
+	if hi < lo {
+		lo, hi = hi, lo
+	}
+	switch {
+	case 0 <= lo && hi <= L:
+		return "inside"
+	case -L <= lo && hi < 0:
+		return "shifted"
+	case -L <= lo && lo < 0 && 0 <= hi && hi < lo+L:
+		return "wrap"
+	}
+	return "rejected"
+}
+
+// c15RegionsWrap: c15Regions for `gts extract` on a CIRCULAR record, widened to what Region.Locate accepts
+// there: every leaf inside, shifted or wrap (ends in [-L, L]; an end in (L, 2L] is rejected by the code).
+// wraps reports whether some leaf is not "inside".
+func c15RegionsWrap(loc string, seq gts.Sequence) (rr gts.Regions, ok, wraps bool) {
+	defer func() {
+		if recover() != nil {
+			rr, ok, wraps = nil, false, false
+		}
+	}()
+	locate, err := gts.AsLocator(loc)
+	if err != nil {
+		return nil, false, false
+	}
+	rr = locate(seq)
+	L := gts.Len(seq)
+	for _, s := range c15Leaves(rr) {
+		switch c15LeafKind(s, L) {
+		case "rejected":
+			return rr, false, wraps
+		case "inside":
+		default:
+			wraps = true
+		}
+	}
+	return rr, true, wraps
+}
+
+// c15LocatorWrap: a locator whose regions reach before the origin: a range / complement / feature selector
+// with a modifier that moves the 5' end (forward strand) or the 3' end (a backward region is modified in
+// mirrored coordinates) up to L positions to the left, sometimes far enough to be rejected
+func c15LocatorWrap(r *rng, seq gts.Sequence) string {
+	L := gts.Len(seq)
+	ff := seq.Features()
+	rng2 := func() (int, int) {
+		a := r.intn(L)
+		if r.intn(2) == 0 {
+			a = r.intn(minInt(L, 4))
+		}
+		return a, r.rangeInt(a+1, L)
+	}
+	k := 1 + r.intn(minInt(L, 9))
+	if r.intn(4) == 0 {
+		k = 1 + r.intn(L+1)
+	}
+	fwd := []gts.Modifier{gts.HeadTail{-k, 0}, gts.HeadTail{-k, -r.intn(3)}, gts.HeadHead{-k, r.intn(4)},
+		gts.HeadHead{-k, -k + 1 + r.intn(3)}, gts.HeadTail{-k, r.intn(3)}}
+	// a backward region is modified in mirrored coordinates: `$+k` moves its 3' end k positions DOWN
+	bwd := []gts.Modifier{gts.HeadTail{0, k}, gts.HeadTail{r.intn(3), k}, gts.TailTail{-r.intn(3), k}, gts.HeadTail{-r.intn(2), k}}
+	switch c := r.intn(10); {
+	case c < 3 && len(ff) > 0:
+		// a feature selector, preferably on a feature with a COMPOSITE region (tryLocation reads no join( as a
+		// locator, so composite regions come from features only), with a modifier that takes its 5' end (a
+		// backward region: its 3' end, in mirrored coordinates) just across the origin
+		var comp []gts.Feature
+		for _, f := range ff {
+			if len(c15Leaves(f.Loc.Region())) > 1 {
+				comp = append(comp, f)
+			}
+		}
+		f := ff[r.intn(len(ff))]
+		if len(comp) > 0 && r.intn(3) > 0 {
+			f = comp[r.intn(len(comp))]
+		}
+		x := f.Loc.Region()
+		lv := c15Leaves(x)
+		if len(lv) == 0 {
+			return f.Key + "@" + fwd[r.intn(len(fwd))].String()
+		}
+		first, last := lv[0], lv[len(lv)-1]
+		if first[0] <= first[1] {
+			kk := first[0] + 1 + r.intn(4)
+			return f.Key + "@" + gts.HeadTail{-kk, 0}.String()
+		}
+		kk := last[1] + 1 + r.intn(4)
+		return f.Key + "@" + gts.HeadTail{0, kk}.String()
+	case c == 3:
+		return "@" + fwd[r.intn(len(fwd))].String() // every feature
+	case c < 6:
+		a, e := rng2()
+		return fmt.Sprintf("%d..%d@%s", a+1, e, fwd[r.intn(len(fwd))])
+	case c < 8:
+		a, e := rng2()
+		return fmt.Sprintf("complement(%d..%d)@%s", a+1, e, bwd[r.intn(len(bwd))])
+	}
+	a, e := rng2()
+	return fmt.Sprintf("%d..%d@%s", a+1, e, fwd[r.intn(len(fwd))])
+}
+
 func c15Leaves(r gts.Region) []gts.Segment {
 	switch v := r.(type) {
 	case gts.Segment:
@@ -366,6 +479,7 @@ type c15Case struct {
 	locs   []string
 	guest  gts.Sequence
 	source string
+	wrap   bool // extract on a circular record: regions accepted by c15RegionsWrap (ends may lie before the origin)
 }
 
 func (c c15Case) line() string {
@@ -593,6 +707,37 @@ func propC15(r *Run) {
 					}
 					c.guest = g
 				}
+				// extract on a circular record without -v: regions may reach before the origin (what
+				// Region.Locate accepts there: c15RegionsWrap); -v stays inside (gts.InvertLinear: "linear
+				// inversion only", a region before the origin makes it emit a backward stretch)
+				if op == "cli.extract" && rc.circ && !c.flag && !strings.HasPrefix(rc.name, "small-scope/") && r.rng.intn(2) == 0 {
+					c.wrap = true
+					okw := false
+					for try := 0; try < 8 && !okw; try++ {
+						for j := range c.locs {
+							if j == 0 || r.rng.intn(2) == 0 {
+								c.locs[j] = c15LocatorWrap(r.rng, rc.seq)
+							}
+						}
+						okw = true
+						for _, l := range c.locs {
+							if strings.Contains(l, "'") {
+								okw = false
+							}
+							if _, ok2, _ := c15RegionsWrap(l, rc.seq); !ok2 {
+								okw = false
+							}
+						}
+						if !okw {
+							r.count("skipped/extract-circular/region-rejected-by-Locate")
+						}
+					}
+					if !okw {
+						continue
+					}
+					cases = append(cases, c)
+					continue
+				}
 				// the property quantifies over locators whose regions stay in range
 				rr, ok := c15Regions(c.locs[0], rc.seq)
 				for _, l := range c.locs {
@@ -782,6 +927,36 @@ func c15Oracle(r *Run, c c15Case, line string, res c15Result) {
 		var got []string
 		for _, o := range outs {
 			got = append(got, string(o.Bytes()))
+		}
+		if c.wrap {
+			// stated without Region.Locate: the residues of every leaf read off the CIRCLE (positions mod L), a
+			// backward leaf downwards and complemented (Gts.C15.extract_wrap_segment_bytes)
+			r.count("extract-circular/cases")
+			for i, x := range regs {
+				kinds := map[string]bool{}
+				for _, s := range c15Leaves(x) {
+					kinds[c15LeafKind(s, L)] = true
+				}
+				for k := range kinds {
+					r.count("extract-circular/region-with-a-leaf/" + k)
+				}
+				if len(c15Leaves(x)) > 1 && (kinds["wrap"] || kinds["shifted"]) {
+					r.count("extract-circular/composite-region-with-a-leaf-before-the-origin")
+				}
+				D, _ := c15RegionView(x, L)
+				w := make([]byte, len(D))
+				for k, p := range D {
+					w[k] = in[p.x]
+					if p.rev {
+						w[k] = gts.Complement(gts.New(nil, nil, []byte{in[p.x]})).Bytes()[0]
+					}
+				}
+				if i < len(want) && string(w) != want[i] {
+					fail("extract on a circular record: a region that reaches before the origin is read off the circle (positions mod L; backward leaves reverse-complemented)",
+						want[i], string(w), "")
+					return
+				}
+			}
 		}
 		if !reflect.DeepEqual(got, want) {
 			fail("extract emits, in order and without duplicates, every located region shorter than the record (with -v the maximal unlocated stretches)",
